@@ -159,6 +159,7 @@ type Unit struct {
 	usesLocks     bool
 	knownLits     map[string]*litInfo
 	methodConsts  map[string]bool
+	recvActualTy  types.Type
 	calleeFacts   map[string]bool
 	namedResults  map[string]bool
 	inputConst    string
